@@ -300,7 +300,7 @@ func vpC22MakeCalls(c *vpC22Codec, n int, pool [][]byte, levels []int, salt uint
 		if len(in) >= 16 {
 			binary.LittleEndian.PutUint64(in[4:], uint64(i)^salt<<20)
 		}
-		calls[i] = &vpC22Call{in: in, level: levels[(uint64(i)*7+salt)%uint64(len(levels))], via: int((uint64(i) + salt/3) % 4)}
+		calls[i] = &vpC22Call{in: in, level: levels[(uint64(i)+salt)%uint64(len(levels))], via: int((uint64(i)/3 + salt/3) % 4)}
 	}
 	return calls
 }
@@ -434,13 +434,20 @@ func vpC22Pool(t *rapid.T, n, minSize, maxSize int) [][]byte {
 	return pool
 }
 
+// vpC22Levels: the level cycle used by the bursts: every level from -10 to 20 that does not make the
+// encoder allocate tens of MiB per call appears `reps` times, the heavy ones once.
 func vpC22Levels(c *vpC22Codec) []int {
 	var out []int
-	for l := -10; l <= 20; l++ {
-		if c.badLevel != nil && c.badLevel(l) {
-			continue
+	for rep := 0; rep < 12; rep++ {
+		for l := -10; l <= 20; l++ {
+			if c.badLevel != nil && c.badLevel(l) {
+				continue
+			}
+			if vpC22HeavyLevel(c.name, l) && (rep != 0 || l > 12) {
+				continue
+			}
+			out = append(out, l)
 		}
-		out = append(out, l)
 	}
 	return out
 }
@@ -489,6 +496,9 @@ func TestVP_C22_Burst(t *testing.T) {
 					// known-finding class: excluded from the asserted search, but still run so the evidence says
 					// what an undirected barrier burst does
 					vpExclude(key)
+					if n > capacity*2 && !vpThorough() {
+						continue
+					}
 					bad, _ := vpC22Burst(c, calls)
 					vpExtra("observed_only_overcapacity_burst_bad_results_"+c.name, int64(bad))
 					vpExtra("observed_only_overcapacity_burst_calls_"+c.name, int64(n))
